@@ -272,7 +272,7 @@ fn mutate(mut f: Vec<u8>, spec: &str, files: &dyn Fn(usize) -> Vec<u8>) -> Vec<u
 
 // ------------------------------------------------------------------ Variant binary format
 
-pub const N_VARIANTS: usize = 4;
+pub const N_VARIANTS: usize = 6;
 fn build_variant(id: usize) -> (Vec<u8>, Vec<u8>) {
     use parquet_variant::{Variant, VariantBuilder, VariantDecimal4};
     let mut b = VariantBuilder::new();
@@ -322,8 +322,23 @@ fn build_variant(id: usize) -> (Vec<u8>, Vec<u8>) {
             }
             o.finish();
         }
-        _ => {
+        3 => {
             b.append_value(&b"\x00\x01binary\xff"[..]);
+        }
+        5 => {
+            // unsorted multi-byte dictionary that the value does not reference (unused entries)
+            let mut b2 = VariantBuilder::new().with_field_names(["zé", "aß", "mü€", "日本"]);
+            b2.append_value(7i8);
+            return b2.finish();
+        }
+        _ => {
+            // unsorted dictionary with multi-byte field names (insertion order is not sorted)
+            let mut o = b.new_object();
+            o.insert("zé", 1i8);
+            o.insert("aß", "x");
+            o.insert("mü€", 2.5f32);
+            o.insert("日本", false);
+            o.finish();
         }
     }
     b.finish()
@@ -377,6 +392,18 @@ fn read_variant(meta: &[u8], value: &[u8]) -> String {
     match parquet_variant::Variant::try_new(meta, value) {
         Err(_) => "ERR".into(),
         Ok(v) => {
+            // the metadata dictionary of an accepted variant: every entry through every accessor
+            if let Ok(md) = parquet_variant::VariantMetadata::try_new(meta) {
+                let n = md.len();
+                let mut total = 0usize;
+                for i in 0..n.min(100_000) {
+                    total += md[i].len();
+                }
+                total += md.iter().take(100_000).map(|s| s.len()).sum::<usize>();
+                let _ = md.get_entry("a");
+                let _ = md.get_entry("no-such-field");
+                let _ = total;
+            }
             let mut budget = 2_000_000usize;
             match walk_variant(&v, 0, &mut budget) {
                 Ok(()) => "ok".into(),
@@ -710,6 +737,8 @@ fn witnesses(thorough: bool) -> Vec<(String, String, usize)> {
     w("C08 bvlq ffffffffffffffffffffff".into(), "op:bvlq witness:bitreader-vlq-overlong nt");
     w("C08 delta ffffffffffffffffffffff01".into(), "op:delta witness:bitreader-vlq-overlong nt");
     w("C08 rle 1 8 ffffffffffffffffffffff01".into(), "op:rle witness:bitreader-vlq-overlong nt");
+    // "fully validated" unsorted Variant metadata whose offset splits a multi-byte character
+    w("C08 variantraw 0102000103c3a961 00".into(), "op:variantraw witness:variant-unsorted-metadata-char-boundary nt");
     // thrift over-long varint accepted with a wrapped value
     w("C08 tvlq 8080808080808080808001".into(), "op:tvlq witness:thrift-vlq-overlong nt");
     v
